@@ -60,7 +60,8 @@ def make_gp(rng):
     d = int(rng.choice([1, 1, 2, 3]))
     n = int(rng.choice([4, 6, 9, 14]))
     x = G.random_points(rng, n, d)
-    ysc = 10.0 ** rng.uniform(-2, 2)
+    # the unit of the objective is arbitrary: mostly O(1e-2..1e2), sometimes tiny or huge
+    ysc = 10.0 ** (rng.uniform(-2, 2) if rng.random() < 0.7 else rng.uniform(-10, 7))
     span = np.where(np.ptp(x, axis=0) > 0, np.ptp(x, axis=0), 1.0)
     y = ysc * (np.sin(2.5 * (x - x.mean(0)) @ (rng.normal(size=d) / span)) + 0.1 * rng.normal(size=n))
     # a dominant maximum of random height
